@@ -58,7 +58,7 @@ package cluster
 // peers callback (in order, each handed its own member), the senders are awaited before the next update is taken,
 // and the consumer goes away only when told to stop - a failed send to one member ends only that member's sender.
 //@ func (*Channel).handleOverSizedMessages
-//@   props C19
+//@   props C19 C10 C09
 //@   abstract
 //@   nosafe
 //@   ensures [stops-only-when-told] called("select") && ret("select") == 1
@@ -69,7 +69,7 @@ package cluster
 //@   loop 2 invariant rangeindex < len(ret("dynamic:field:peers")) && count("go.stmt") == count("WaitGroup).Add") && count("go.stmt") == pre(count("go.stmt")) + rangeindex + 1
 //@   noeffect dynamic:field:peers
 //@ func (*Channel).handleOverSizedMessages$1
-//@   props C19
+//@   props C19 C10 C09
 //@   abstract
 //@   nosafe
 //@   at call dynamic:field:sendOversize assert [sends-the-update-to-its-member] arg0 == n && arg1 == deref(b)
@@ -110,6 +110,7 @@ package cluster
 //@   at call proto.Marshal assert [parts-are-the-states] forall i int :: 0 <= i && i < len(all.Parts) ==> all.Parts[i] != nil && (all.Parts[i].Key in d.states)
 //@   ensures [encoding-error-sends-nothing] called("State).MarshalBinary") && ret1("State).MarshalBinary") != nil ==> result == nil && !called("proto.Marshal")
 //@   ensures [returns-the-encoding] called("proto.Marshal") ==> (ret1("proto.Marshal") == nil ? result == ret("proto.Marshal") : result == nil)
+//@   ensures [the-full-state-is-sent-whenever-it-can-be-encoded-joining-or-not] !(called("State).MarshalBinary") && ret1("State).MarshalBinary") != nil) ==> called("proto.Marshal")
 //@   loop 1 invariant fresh(all) && (all.Parts == nil || fresh(all.Parts)) && count("State).MarshalBinary") == len(visited) && len(all.Parts) == len(visited) && !called("proto.Marshal")
 //@   loop 1 invariant called("State).MarshalBinary") ==> ret1("State).MarshalBinary") == nil
 //@   loop 1 invariant d.states == old(d.states) && (forall k string :: (k in visited) ==> (k in d.states)) && dom(d.states) == old(dom(d.states))
